@@ -193,7 +193,8 @@ mod tests {
         let twin = inlined_twin(&d, op).unwrap();
         let text = print_document(&twin);
         assert!(!text.contains("...A") && !text.contains("...B"), "{text}");
-        assert_eq!(text.trim(), "{ __schema { types { ... on __Type { interfaces { ... on __Type { name possibleTypes { name } } } kind } fields { type { ... on __Type { interfaces { ... on __Type { name possibleTypes { name } } } kind } } } } } }");
+        let want = parse_document("{ __schema { types { ... on __Type { interfaces { ... on __Type { name possibleTypes { name } } } kind } fields { type { ... on __Type { interfaces { ... on __Type { name possibleTypes { name } } } kind } } } } } }").unwrap();
+        assert_eq!(twin, want);
         let top = first_operation(&twin).unwrap();
         assert_eq!(max_list_nesting(&twin, top).unwrap(), max_list_nesting(&d, op).unwrap());
         assert_eq!(max_list_nesting(&d, op).unwrap(), 3);
